@@ -387,15 +387,27 @@ func runListCase(c listCase) pbt.Result {
 			wantHTTP = append(wantHTTP, it.Text)
 		}
 	}
-	gotHTTP := texts(mautil.FindHTTPAddrs(build(c.Items)))
+	inHTTP := build(c.Items)
+	beforeHTTP := texts(inHTTP)
+	gotHTTP := texts(mautil.FindHTTPAddrs(inHTTP))
 	if strings.Join(gotHTTP, " ") != strings.Join(wantHTTP, " ") {
 		res.Fail = fmt.Sprintf("FindHTTPAddrs(%v) = %v, want %v", texts(build(c.Items)), gotHTTP, wantHTTP)
+		return res
+	}
+	// a selection does not rearrange the list it selects from (the caller goes on using it)
+	if after := texts(inHTTP); strings.Join(after, " ") != strings.Join(beforeHTTP, " ") {
+		res.Fail = fmt.Sprintf("FindHTTPAddrs changed the list it was given: %v became %v", beforeHTTP, after)
 		return res
 	}
 
 	// FilterPublic: nothing clearly non-public, every clearly public one, order kept, nothing invented.
 	in := build(c.Items)
+	beforePub := texts(in)
 	got := mautil.FilterPublic(in)
+	if after := texts(in); strings.Join(after, " ") != strings.Join(beforePub, " ") {
+		res.Fail = fmt.Sprintf("FilterPublic changed the list it was given: %v became %v", beforePub, after)
+		return res
+	}
 	gi := 0
 	for _, it := range c.Items {
 		if it.Nil {
